@@ -1761,3 +1761,13 @@ _run15 = run
 def run(ctx, rep, tier):
     _run15(ctx, rep, tier)
     _optimiser_passes_report_real_progress(ctx, rep, tier)
+
+
+_run_r6 = run
+
+
+def run(ctx, rep, tier):
+    _run_r6(ctx, rep, tier)
+    from .shared import delegate
+    delegate(ctx, rep, tier, "C14", ("C14.h",), "C18.x1", "no operand reaches the compile-time evaluator with a type its operator cannot compare (an enum constant next to `<` and a number: TypeError): "
+             "comparison operands are parsed without the destination of the whole expression")
